@@ -568,7 +568,7 @@ func checkGdef(c *gdefCase) (labels []string, f *failure) {
 		}
 	}
 	var got *gdef.Table
-	if pn := guard.Try(func() { got, err = gdef.Read(bytes.NewReader(data)) }); pn != nil {
+	if pn := guard.Try(func() { got, err = gdef.Read(guard.Source(data)) }); pn != nil {
 		return nil, &failure{key, fmt.Sprintf("gdef.Read: %s", pn)}
 	}
 	if err != nil {
